@@ -201,7 +201,7 @@ func genPubCase(r *rng.R, maxOps int) pubCase {
 }
 
 const pubHeader = `From Coq Require Import List NArith Bool.
-From GS Require Import Base Publisher.
+From GS Require Import Base Publisher PublisherTrace.
 Import ListNotations.
 Open Scope N_scope.
 Definition mk_pcase := Build_pcase.
@@ -211,6 +211,7 @@ func drivePublisher(c *ctx) error {
 	w := cw.New(c.out, pubHeader, "pcase", []cw.Check{
 		{Name: "MISMATCH", Fn: "pcase_agrees"},
 		{Name: "MON18", Fn: "pcase_mon"},
+		{Name: "HIST18", Fn: "pcase_hist"},
 	})
 	w.Stats.Rule = "sequences of subscribe/unsubscribe/publish/close-topic/shutdown over 1-3 topics (plus, in 1 op of 8, the nil topic) and 1-3 recording subscribers " +
 		"on the real notifications publisher (a marker publish waits for the command queue to drain after every call); " +
